@@ -116,7 +116,12 @@ impl Prop for C07 {
             v.dedup();
             v
         };
-        let mut sim = match guard(|| Interpreter::new(ctx, sys)) {
+        // both public constructors that need no file: plain, and with tracing switched on
+        let traced = t.chance(64);
+        if traced {
+            rec.label("constructor:new_with_trace");
+        }
+        let mut sim = match guard(|| if traced { Interpreter::new_with_trace(ctx, sys) } else { Interpreter::new(ctx, sys) }) {
             Ok(s) => s,
             Err(p) => return Err(panic_fail("new", p, ctx, sys, &[])),
         };
